@@ -1,6 +1,10 @@
 package qt
 
-import "math/rand"
+import (
+	"math/rand"
+	"strconv"
+	"strings"
+)
 
 // FullLeaves is the leaf alphabet covering every leaf form of the documented grammar.
 func FullLeaves() []*Node {
@@ -107,5 +111,66 @@ func AndNodes(n *Node) []*Node {
 			out = append(out, x)
 		}
 	})
+	return out
+}
+
+// EscapedOK reports whether s may be written as a fully escaped bare word and still be a
+// plain string value: non-empty, not numeric text, not a keyword.
+func EscapedOK(s string) bool {
+	if s == "" {
+		return false
+	}
+	if _, err := strconv.Atoi(s); err == nil {
+		return false
+	}
+	if _, err := strconv.ParseFloat(s, 64); err == nil {
+		return false
+	}
+	switch strings.ToUpper(s) {
+	case "AND", "OR", "NOT", "TO":
+		return false
+	}
+	return true
+}
+
+// HostileLeaves builds n leaves whose values (and, when withFields is set, field names) come
+// from a dictionary of hostile strings, quoted or fully escaped.
+func HostileLeaves(r *rand.Rand, dict []string, n int, withFields bool) []*Node {
+	pick := func() Value {
+		for {
+			h := dict[r.Intn(len(dict))]
+			if strings.Contains(h, `"`) {
+				continue
+			}
+			if r.Intn(3) == 0 && EscapedOK(h) {
+				return Escaped(h)
+			}
+			return Phrase(h)
+		}
+	}
+	out := []*Node{}
+	for len(out) < n {
+		v := pick()
+		switch r.Intn(7) {
+		case 0:
+			out = append(out, T(v))
+		case 1:
+			out = append(out, F("f", v))
+		case 2:
+			out = append(out, Range("f", v, pick(), r.Intn(2) == 0))
+		case 3:
+			out = append(out, List("f", v, pick(), Int(r.Intn(9))))
+		case 4:
+			out = append(out, Cmp("f", []string{">", ">=", "<", "<="}[r.Intn(4)], v))
+		case 5:
+			out = append(out, Group("g", Or(T(v), Not(T(pick())))))
+		case 6:
+			if withFields {
+				out = append(out, FV(v, pick()))
+			} else {
+				out = append(out, F("f", v))
+			}
+		}
+	}
 	return out
 }
